@@ -24,10 +24,14 @@ import (
 // results, chain, live image and per-file contents that SOME sequential merge of the threads' calls produces.
 type C01Cfg struct {
 	Name    string   `json:"name"`
-	Threads []string `json:"threads"` // one op per thread: W<b> Wu R<b> Ru Snap Rm Revert Reload ULM Resize ModeWO Close
+	Init    string   `json:"init,omitempty"` // "" = open RW; "closed" = the same chain, replica closed
+	Threads []string `json:"threads"`        // one op per thread: W<b> Wu R<b> Ru Snap Rm Revert Reload ULM Resize ModeWO ModeRW Close Open SetRev
 }
 
 func (c C01Cfg) String() string {
+	if c.Init != "" {
+		return fmt.Sprintf("%s init=%s ops=%s", c.Name, c.Init, strings.Join(c.Threads, "||"))
+	}
 	return fmt.Sprintf("%s ops=%s", c.Name, strings.Join(c.Threads, "||"))
 }
 
@@ -62,12 +66,12 @@ func (x *c01Inst) calls(k int, op string) []func() string {
 	blk := func() int64 { return int64(op[len(op)-1] - '0') }
 	tag := byte(0x40 + k) // distinct from the initial contents (1..7)
 	switch {
-	case strings.HasPrefix(op, "W") && op != "Wu":
+	case len(op) == 2 && op[0] == 'W' && op[1] >= '0' && op[1] <= '9':
 		return []func() string{func() string { _, err := s.WriteAt(c01Pat(tag, 4096), blk()*4096); return op + ":" + e(err) }}
 	case op == "Wu":
 		// sectors 3..4 of block 0: read-modify-write under rmLock
 		return []func() string{func() string { _, err := s.WriteAt(c01Pat(tag, 1024), 3*512); return op + ":" + e(err) }}
-	case strings.HasPrefix(op, "R") && op != "Ru" && op != "Rm" && op != "Revert" && op != "Reload" && op != "Resize":
+	case len(op) == 2 && op[0] == 'R' && op[1] >= '0' && op[1] <= '9':
 		return []func() string{func() string {
 			buf := make([]byte, 4096)
 			_, err := s.ReadAt(buf, blk()*4096)
@@ -133,6 +137,10 @@ func (x *c01Inst) calls(k int, op string) []func() string {
 		return []func() string{func() string { return op + ":" + e(s.SetReplicaMode("WO")) }}
 	case op == "Close":
 		return []func() string{func() string { return op + ":" + e(s.Close()) }}
+	case op == "Open":
+		return []func() string{func() string { return op + ":" + e(s.Open()) }}
+	case op == "ModeRW":
+		return []func() string{func() string { return op + ":" + e(s.SetReplicaMode("RW")) }}
 	case op == "SetRev":
 		return []func() string{func() string { return op + ":" + e(s.SetRevisionCounter(50)) }}
 	}
@@ -278,6 +286,9 @@ func c01Exec(cfg *C01Cfg, ch vs.Chooser, trace bool, order []int) (string, *vs.R
 		w(6, 0)
 		must("snapshot a4", s.Snapshot("a4", false, "2020-01-01T00:00:00Z"))
 		w(7, 2)
+		if cfg.Init == "closed" {
+			must("close", s.Close())
+		}
 		calls := make([][]func() string, len(cfg.Threads))
 		results := make([][]string, len(cfg.Threads))
 		for k, op := range cfg.Threads {
@@ -432,7 +443,7 @@ func c01Configs(part, tier string) []C01Cfg {
 	case "C01conc":
 		// data path against itself and against everything that rebuilds or shifts the block map
 		for _, p := range [][]string{{"W0", "R0"}, {"W0", "Wu"}, {"Wu", "Ru"}, {"Wu", "Wu"}, {"W0", "W0"}, {"W1", "Ru"},
-			{"W0", "Rm"}, {"R0", "Rm"}, {"Ru", "Rm"}, {"W0", "Reload"}, {"R1", "Reload"}, {"W0", "ULM"}, {"Wu", "ULM"}, {"R0", "ULM"},
+			{"W0", "Rm"}, {"R0", "Rm"}, {"Ru", "Rm"}, {"W0", "Reload"}, {"R1", "Reload"}, {"W0", "ULM"}, {"W1", "ULM"}, {"W2", "ULM"}, {"Wu", "ULM"}, {"R0", "ULM"}, {"R1", "ULM"},
 			{"W0", "Snap"}, {"Wu", "Snap"}, {"W0", "Revert"}, {"R0", "Revert"}, {"W2", "Resize"}, {"R2", "Resize"}, {"W0", "Close"}, {"R0", "Close"}} {
 			add(p...)
 		}
@@ -454,6 +465,16 @@ func c01Configs(part, tier string) []C01Cfg {
 			add("Snap", "Rm", "W0")
 			add("Revert", "Rm", "W0")
 		}
+	case "C17conc":
+		// the open/closed state and the mode against concurrent calls: a replica is opened once, I/O is applied only while
+		// open and RW/WO, removals and SetRevisionCounter only while RW
+		for _, p := range [][]string{{"Open", "Open"}, {"Open", "W0"}, {"Open", "R0"}, {"Open", "Snap"}, {"Open", "Close"}, {"Open", "ModeRW"}} {
+			out = append(out, C01Cfg{Name: part, Init: "closed", Threads: p})
+		}
+		out = append(out, C01Cfg{Name: part, Init: "closed", Threads: []string{"Open", "Open", "W0"}})
+		for _, p := range [][]string{{"Close", "W0"}, {"Close", "Wu"}, {"Close", "Close"}, {"Close", "SetRev"}, {"ModeWO", "W0"}, {"ModeWO", "Rm"}, {"ModeWO", "SetRev"}, {"Close", "Open"}, {"Close", "Revert"}, {"Close", "ModeWO"}} {
+			add(p...)
+		}
 	case "C12conc":
 		// management operations against each other
 		for _, p := range [][]string{{"Snap", "Snap"}, {"Snap", "Resize"}, {"Rm", "Resize"}, {"Rm", "Reload"}, {"Rm", "Rm"}, {"Revert", "Resize"}, {"Revert", "Revert"},
@@ -471,3 +492,4 @@ func c01Configs(part, tier string) []C01Cfg {
 func checkC01conc() int { return checkSimple("C01", "C01conc", "C01-conc.part") }
 func checkC06conc() int { return checkSimple("C06", "C06conc", "C06-conc.part") }
 func checkC12conc() int { return checkSimple("C12", "C12conc", "C12-conc.part") }
+func checkC17conc() int { return checkSimple("C17", "C17conc", "C17-conc.part") }
